@@ -28,6 +28,7 @@ type HarnessCfg struct {
 	Verbose   bool              `json:"verbose"`
 	MaxViol   int               `json:"max_violations"`
 	Tolerate  []string          `json:"tolerate"`
+	Summarize []string          `json:"summarize"`
 	Reach     bool              `json:"reach"` // reachability twin: assertions replaced by false at the end
 }
 
@@ -90,6 +91,15 @@ type HarnessRun struct {
 	stop   bool
 
 	res HarnessResult
+}
+
+func (h *HarnessRun) summarizable(name string) bool {
+	for _, s := range h.cfg.Summarize {
+		if strings.Contains(name, s) {
+			return true
+		}
+	}
+	return false
 }
 
 func (h *HarnessRun) push(p []decision) {
